@@ -169,7 +169,7 @@ func c05Compose(p []kv) string {
 }
 
 func checkC05(c *ev.Ctx) {
-	c.Rule("encoder: complete product 2^4 flags x touch{-1..4} x usage{0,1,2} x ver{0,1,2,65535} x 6 principal lists x jointly varied 5-value string alphabet, plus 6 literal-escape / control-character strings in each string field of the generating set; decoder: single-field surgeries (delete, 3 case renames, duplicate before/after, retype to null/number/string/array/object/bool-flip) and double surgeries (one field deleted/renamed AND another duplicated or an unknown key added) and structural relocations (a field moved from the top level into a nested object / array / two levels / JSON-in-a-string under an unknown or known key, with and without a top-level copy; a field deleted while another field's string value spells its name) on every field of a generating set of encoder outputs, all flag/touch/ver combinations as texts, a JSON value catalogue, every ordered pair (and triples) of a 17-text set decoded back to back (history independence), byte-substitution neighbourhood of an encoder output, and ALL strings up to length 5 (thorough 6) over a 13-symbol structural alphabet. non-trivial = Marshal succeeded (round-trip checked) or Unmarshal accepted (oracle checked, then the result is modified in place and the same text decoded again: results are values of their own); distinct by text")
+	c.Rule("encoder: complete product 2^4 flags x touch{-1..4} x usage{0,1,2} x ver{0,1,2,65535} x 6 principal lists x jointly varied 5-value string alphabet, plus 6 literal-escape / control-character strings in each string field of the generating set; decoder: single-field surgeries (delete, 3 case renames, duplicate before/after, retype to null/number/string/array/object/bool-flip) and double surgeries (one field deleted/renamed AND another duplicated or an unknown key added; two members retyped at once, in encoder order and with the first moved to the front) and structural relocations (a field moved from the top level into a nested object / array / two levels / JSON-in-a-string under an unknown or known key, with and without a top-level copy; a field deleted while another field's string value spells its name) on every field of a generating set of encoder outputs, all flag/touch/ver combinations as texts, a JSON value catalogue, every ordered pair (and triples) of a 17-text set decoded back to back (history independence), byte-substitution neighbourhood of an encoder output, and ALL strings up to length 5 (thorough 6) over a 13-symbol structural alphabet. non-trivial = Marshal succeeded (round-trip checked) or Unmarshal accepted (oracle checked, then the result is modified in place and the same text decoded again: results are values of their own); distinct by text")
 	c.Assume("valid UTF-8 strings only (encoding/json replaces invalid UTF-8, which the property excludes)", "the independent decode uses encoding/json into map[string]RawMessage")
 	if c.ReplayCase != nil {
 		var k c05Case
@@ -303,6 +303,33 @@ func checkC05(c *ev.Ctx) {
 			}
 		}
 	}
+	// two members of the wrong JSON type at once, in encoder order and with the first one moved to the front of the text (a
+	// decoder that reports only the first type error it meets must still refuse because of the second)
+	dret := 0
+	for gi, g := range generating {
+		if gi > 3 {
+			break
+		}
+		base := c05Pairs(g)
+		for i := range base {
+			for j := range base {
+				if i == j {
+					continue
+				}
+				for _, vi := range []string{"{}", `"1"`} {
+					for _, vj := range []string{"{}", `"1"`, "[1]"} {
+						p := append([]kv{}, base...)
+						p[i].v, p[j].v = vi, vj
+						c05Dec(c, c05Compose(p), fmt.Sprintf("double retype %s=%s %s=%s", base[i].k, vi, base[j].k, vj))
+						front := append([]kv{p[i]}, append(append([]kv{}, p[:i]...), p[i+1:]...)...)
+						c05Dec(c, c05Compose(front), fmt.Sprintf("double retype, %s=%s first, %s=%s", base[i].k, vi, base[j].k, vj))
+						dret += 2
+					}
+				}
+			}
+		}
+	}
+	c.Set("double_retype_texts", dret)
 	// double surgeries: one field deleted or case-renamed AND another one duplicated / retyped (a decoder that counts
 	// names instead of checking each one is fooled only by two deviations at once)
 	dbl := 0
